@@ -490,6 +490,124 @@ def check_single_file(ctx, rng):
         sc.close()
 
 
+MOVES = ["copied", "hardlinked", "alias"]
+
+
+def move_cache(sc, mode):
+    """the project is pointed at another cache directory that holds the same objects: `copied` (cp -r / a transfer: same
+    names and bytes, other inodes), `hardlinked` (cp -al: same inodes under another directory) or `alias` (the new path is a
+    symbolic link to the old directory).  Returns the store that was configured before."""
+    old = sc.odb
+    new_path = os.path.join(sc.root, "cache-moved")
+    if mode == "alias":
+        os.symlink(old.path, new_path)
+    else:
+        for o in stores.listing_of(old.path):
+            src = os.path.join(old.path, o[:2], o[2:])
+            if mode == "hardlinked":
+                os.makedirs(os.path.join(new_path, o[:2]), exist_ok=True)
+                os.link(src, os.path.join(new_path, o[:2], o[2:]))
+            else:
+                stores.put_raw(new_path, o, stores.read_obj(old.path, o), mode=stat.S_IMODE(os.stat(src).st_mode))
+    cfg = {"state": sc.state} if sc.state is not None else {}
+    sc.odb = stores.make_odb(new_path, local=sc.local, **cfg)
+    return old
+
+
+def check_cache_moved(ctx, rng):
+    """C10, 'the configured link type ... to the cache object' over histories in which the configured cache changes: the
+    workspace holds links into the cache directory that was configured before; a relinking checkout against another directory
+    with the same objects must leave every file a link of the configured type to the object *of the configured cache* (so that
+    the old directory can be thrown away), from every existing link type, for an unchanged or a changed target"""
+    sc = Scene(ctx, rng)
+    try:
+        prior = gen.rand_tree(rng, max_files=4, allow_odd=False)
+        if not any(prior.values()):
+            prior[("nonempty",)] = b"non-empty-%d" % rng.randrange(1000)
+        existing = rng.choice(LINKS)
+        # the diagonal is where only the link's target tells a file that is fine from one that has to be relinked
+        configured = existing if rng.random() < 0.4 else rng.choice(LINKS)
+        mode = rng.choice(MOVES)
+        relink = rng.random() < 0.8
+        shared = rng.random() < 0.25
+        t1 = sc.put_tree(prior)
+        target = dict(prior)
+        if rng.random() < 0.4:
+            for k in sorted(prior):
+                r = rng.random()
+                if r < 0.3:
+                    target[k] = prior[k] + b"^"
+                elif r < 0.4 and len(target) > 1:
+                    del target[k]
+            if rng.random() < 0.5:
+                target[("extra",)] = rng.choice([b"", b"new-content"])
+        t2 = sc.put_tree(target)
+        case = {"cache_moved": {"prior": {"/".join(k): v.decode("latin1") for k, v in prior.items()},
+                                 "target": {"/".join(k): v.decode("latin1") for k, v in target.items()},
+                                 "existing": existing, "configured": configured, "relink": relink, "move": mode, "objects_have_other_hard_links": shared,
+                                 "local": sc.local, "state": sc.state is not None}}
+        ctx.case(case, nontrivial=True)
+        ctx.count("cache_moved:%s %s->%s relink=%s" % (mode, existing, configured, relink))
+        if shared:
+            ctx.count("cache_moved:objects have other hard links")
+        r0 = sc.checkout(t1, [existing], force=True)
+        if "ok" not in r0:
+            ctx.oracle(False, case, {"why": "forced checkout of a cached tree into an empty location failed", "result": r0})
+            return
+        old = move_cache(sc, mode)
+        if shared:
+            # another checkout of the same data elsewhere on the disk uses hard links: the objects have further names
+            for o in stores.listing_of(sc.odb.path):
+                if not o.endswith(".dir"):
+                    os.makedirs(os.path.join(sc.root, "other-ws"), exist_ok=True)
+                    os.link(os.path.join(sc.odb.path, o[:2], o[2:]), os.path.join(sc.root, "other-ws", o))
+        snap = lambda path: {o: md5hex(stores.read_obj(path, o)) for o in stores.listing_of(path)}  # noqa: E731
+        old_before, new_before = snap(old.path), snap(sc.odb.path)
+        before = sc.walk()
+        res = sc.checkout(t2, [configured], force=True, relink=relink)
+        after = sc.walk()  # link targets are judged against the store that is configured now
+        link_rec = sc.link_record() if sc.state is not None and "ok" in res and (relink or sc.saved_link) else None
+        res2 = sc.checkout(t2, [configured], force=True, relink=False)
+        after2 = sc.walk()
+        want = {"/".join(k): md5hex(c) for k, c in target.items()}
+        got = {k: v[0] for k, v in after.items()}
+        ctx.oracle("ok" in res and got == want, case, {"why": "forced checkout after the cache directory changed did not leave exactly the target", "result": res, "got": got, "want": want})
+        ctx.oracle(res2 == {"ok": False} and after2 == after, case, {"why": "a second checkout did not report 'nothing to do'", "second": res2})
+        if "ok" in res:
+            # relinking: every file; otherwise: the files this checkout had to write (new or changed content)
+            judged = {k: v for k, v in after.items() if relink or k not in before or before[k][0] != v[0]}
+            bad = {k: [v[1], "to the configured cache" if v[2] else "elsewhere"] for k, v in judged.items()
+                   if v[3] > 0 and (v[1] != configured or not v[2])}
+            bad.update({k: [v[1]] for k, v in judged.items() if v[3] == 0 and ((v[1] == "symlink") != (configured == "symlink"))})
+            # finding (unchanged library): a symbolic link to an object that has more than one name (st_nlink > 1: the cache was
+            # hard-linked into the new directory, or another workspace hard-links the object) is taken for a hard link to it by
+            # _needs_relink - the stat follows the link, so the inode is the object's - and is left a symbolic link
+            sig = None
+            if bad and configured == "hardlink" and relink and got == want and all(
+                    v[0] == "symlink" and os.path.islink(os.path.join(sc.ws, k)) and os.stat(os.path.join(sc.ws, k)).st_nlink > 1 for k, v in bad.items()):
+                sig = "symlink-to-an-object-with-several-names-taken-for-a-hard-link"
+                ctx.count("cache_moved:symlink to a multiply-named object left in place under hardlink")
+            ctx.oracle(not bad, case, {"why": "after the configured cache directory changed, a %s left files that are not links of the configured type to "
+                                              "the object of the configured cache" % ("relinking checkout" if relink else "checkout"), "files": bad, "configured": configured,
+                                       "readlink": {k: os.readlink(os.path.join(sc.ws, k)) for k in bad if os.path.islink(os.path.join(sc.ws, k))}}, signature=sig)
+        ctx.oracle(snap(sc.odb.path) == new_before and snap(old.path) == old_before, case, {"why": "checkout changed the bytes of a cache object"})
+        if link_rec is not None:
+            link_record_oracle(ctx, sc, case, link_rec)
+        if relink and "ok" in res and mode == "copied":
+            # nothing in the workspace depends on the directory that is no longer configured
+            import shutil
+
+            for r, ds, fsn in os.walk(old.path):
+                os.chmod(r, 0o755)
+            shutil.rmtree(old.path)
+            ctx.count("cache_moved:old directory removed")
+            left = {k: (None if b is None else md5hex(b)) for k, b in sc.bytes_snapshot().items()}
+            ctx.oracle(left == want, case, {"why": "after a relinking checkout against the new cache directory the workspace still depended on the old one: "
+                                                   "removing it changed what the files read", "got": left, "want": want})
+    finally:
+        sc.close()
+
+
 def relink_table(ctx):
     """exhaustive: _needs_relink over configured type lists x actual link kind x points-at-cache x cache meta known"""
     from dvc_data.hashfile.checkout import _needs_relink
@@ -531,7 +649,7 @@ def run(ctx):
         "between the checkouts, the workspace root reached directly or through a symbolic link to the directory; single-file targets over the same link matrix "
         "(under the symbolic link type the checkout path itself is a link); each followed by a second checkout; whenever a checkout with a state saved a link "
         "record (observed by wrapping State.set_link) the record is compared with the lstat inode of the checkout path and the mtime token, and "
-        "State.get_unused_links must recognise the untouched path; histories in one process where contents seen uncached are committed (or an object is collected and re-fetched) before the next checkout. non-trivial = link type changes or the user edited the workspace"
+        "State.get_unused_links must recognise the untouched path; histories in one process where contents seen uncached are committed (or an object is collected and re-fetched) before the next checkout; histories in which the configured cache directory changes between the checkouts (the same objects copied or hard-linked into another directory, or the old directory reached through a symbolic link) over the 3x3 link matrix, unchanged and changed targets: every file must become a link of the configured type to the object of the cache configured now, and (copied) the workspace must survive removing the old directory. non-trivial = link type changes or the user edited the workspace"
     )
     ctx.assumptions = ["reflink is unavailable in the sandbox (copy is what runs)", "hard-linking an empty file creates a fresh empty file: for empty files only symbolic link versus regular file is compared"]
     relink_table(ctx)
@@ -541,6 +659,8 @@ def run(ctx):
         check_single_file(ctx, ctx.rng)
     for _ in range(ctx.n(40, 400)):
         check_commit_between(ctx, ctx.rng)
+    for _ in range(ctx.n(60, 600)):
+        check_cache_moved(ctx, ctx.rng)
 
 
 def search(ctx):
@@ -550,6 +670,8 @@ def search(ctx):
         check_single_file(ctx, ctx.rng)
     for _ in range(300):
         check_commit_between(ctx, ctx.rng)
+    for _ in range(300):
+        check_cache_moved(ctx, ctx.rng)
 
 
 def replay(ctx, payload):
